@@ -2,6 +2,7 @@ import STProofs.Alg
 import STProofs.BlockThomas
 import Mathlib.Tactic.Ring
 import Mathlib.Tactic.FieldSimp
+import Mathlib.Tactic.LinearCombination
 /-!
 # 2×2 and 3×3 blocks over a field: ring / module structure with the model's operations, and the code's
 closed-form inverses (`Inverse2x2`, `Inverse3x3`) are right inverses whenever the determinant is non-zero.
@@ -9,7 +10,7 @@ closed-form inverses (`Inverse2x2`, `Inverse3x3`) are right inverses whenever th
 open ST
 
 section m2
-variable {K : Type} [Field K]
+variable {K : Type} [DivRing K]
 namespace ST.M2
 @[ext] theorem ext' {a b : M2 K} (h0 : a.a00 = b.a00) (h1 : a.a01 = b.a01) (h2 : a.a10 = b.a10) (h3 : a.a11 = b.a11) : a = b := by
   cases a; cases b; simp_all
@@ -54,11 +55,24 @@ instance : Ring (M2 K) where
   intCast_ofNat n := by ext <;> simp [natCast_def, intCast_def]
   intCast_negSucc n := by ext <;> simp [natCast_def, intCast_def, neg_def] <;> ring
 
-/-- `Inverse2x2` is a right inverse when the determinant is non-zero -/
-theorem mul_inv (A : M2 K) (h : M2.det A ≠ 0) : A * M2.inv A = 1 := by
-  unfold M2.det at h
-  ext <;> simp only [mul_def, M2.inv, one_def, lit_eq] <;> push_cast <;>
-    (generalize hD : A.a00 * A.a11 - A.a01 * A.a10 = D at h ⊢) <;> field_simp <;> rw [← hD] <;> ring
+/-- `Inverse2x2` is a right inverse whenever the determinant is a unit (over a field: non-zero) -/
+theorem mul_inv (A : M2 K) (h : DivRing.U (M2.det A)) : A * M2.inv A = 1 := by
+  have hd := DivRing.div_mul (1 : K) (M2.det A) h
+  unfold M2.det at hd
+  ext <;> simp only [mul_def, M2.inv, one_def, lit_eq, Nat.cast_one]
+  · linear_combination hd
+  · linear_combination (0 : K) * hd
+  · linear_combination (0 : K) * hd
+  · linear_combination hd
+
+theorem inv_mul (A : M2 K) (h : DivRing.U (M2.det A)) : M2.inv A * A = 1 := by
+  have hd := DivRing.div_mul (1 : K) (M2.det A) h
+  unfold M2.det at hd
+  ext <;> simp only [mul_def, M2.inv, one_def, lit_eq, Nat.cast_one]
+  · linear_combination hd
+  · linear_combination (0 : K) * hd
+  · linear_combination (0 : K) * hd
+  · linear_combination hd
 end ST.M2
 
 namespace ST.V2
@@ -98,7 +112,7 @@ theorem blkOps_M2 : (instBlkOpsM2V2 : BlkOps (M2 K) (V2 K)) = ringBlk M2.inv M2.
 end m2
 
 section m3
-variable {K : Type} [Field K]
+variable {K : Type} [DivRing K]
 namespace ST.M3
 @[ext] theorem ext' {a b : M3 K} (h0 : a.a00 = b.a00) (h1 : a.a01 = b.a01) (h2 : a.a02 = b.a02)
   (h3 : a.a10 = b.a10) (h4 : a.a11 = b.a11) (h5 : a.a12 = b.a12)
@@ -147,12 +161,40 @@ instance : Ring (M3 K) where
   intCast_ofNat n := by ext <;> simp [natCast_def, intCast_def]
   intCast_negSucc n := by ext <;> simp [natCast_def, intCast_def, neg_def] <;> ring
 
-/-- `Inverse3x3` (cofactors / determinant) is a right inverse when the determinant is non-zero -/
-theorem mul_inv (A : M3 K) (h : M3.det A ≠ 0) : A * M3.inv A = 1 := by
-  unfold M3.det at h
-  ext <;> simp only [mul_def, M3.inv, one_def, lit_eq] <;> push_cast <;>
-    (generalize hD : A.a00*(A.a11*A.a22 - A.a12*A.a21) + A.a01*(-(A.a10*A.a22 - A.a12*A.a20)) + A.a02*(A.a10*A.a21 - A.a11*A.a20) = D at h ⊢) <;>
-    field_simp <;> rw [← hD] <;> ring
+/-- `Inverse3x3` (cofactors / determinant) is a right inverse whenever the determinant is a unit -/
+theorem mul_inv (A : M3 K) (h : DivRing.U (M3.det A)) : A * M3.inv A = 1 := by
+  have hd := DivRing.div_mul (1 : K) (M3.det A) h
+  have hdet : M3.det A = A.a00*(A.a11*A.a22 - A.a12*A.a21) + A.a01*(-(A.a10*A.a22 - A.a12*A.a20)) + A.a02*(A.a10*A.a21 - A.a11*A.a20) := rfl
+  have hd' : (1 : K) / (A.a00*(A.a11*A.a22 - A.a12*A.a21) + A.a01*(-(A.a10*A.a22 - A.a12*A.a20)) + A.a02*(A.a10*A.a21 - A.a11*A.a20))
+      * (A.a00*(A.a11*A.a22 - A.a12*A.a21) + A.a01*(-(A.a10*A.a22 - A.a12*A.a20)) + A.a02*(A.a10*A.a21 - A.a11*A.a20)) = 1 := by
+    rw [← hdet]; exact hd
+  ext <;> simp only [mul_def, M3.inv, one_def, lit_eq, Nat.cast_one]
+  · linear_combination hd'
+  · linear_combination (0 : K) * hd'
+  · linear_combination (0 : K) * hd'
+  · linear_combination (0 : K) * hd'
+  · linear_combination hd'
+  · linear_combination (0 : K) * hd'
+  · linear_combination (0 : K) * hd'
+  · linear_combination (0 : K) * hd'
+  · linear_combination hd'
+
+theorem inv_mul (A : M3 K) (h : DivRing.U (M3.det A)) : M3.inv A * A = 1 := by
+  have hd := DivRing.div_mul (1 : K) (M3.det A) h
+  have hdet : M3.det A = A.a00*(A.a11*A.a22 - A.a12*A.a21) + A.a01*(-(A.a10*A.a22 - A.a12*A.a20)) + A.a02*(A.a10*A.a21 - A.a11*A.a20) := rfl
+  have hd' : (1 : K) / (A.a00*(A.a11*A.a22 - A.a12*A.a21) + A.a01*(-(A.a10*A.a22 - A.a12*A.a20)) + A.a02*(A.a10*A.a21 - A.a11*A.a20))
+      * (A.a00*(A.a11*A.a22 - A.a12*A.a21) + A.a01*(-(A.a10*A.a22 - A.a12*A.a20)) + A.a02*(A.a10*A.a21 - A.a11*A.a20)) = 1 := by
+    rw [← hdet]; exact hd
+  ext <;> simp only [mul_def, M3.inv, one_def, lit_eq, Nat.cast_one]
+  · linear_combination hd'
+  · linear_combination (0 : K) * hd'
+  · linear_combination (0 : K) * hd'
+  · linear_combination (0 : K) * hd'
+  · linear_combination hd'
+  · linear_combination (0 : K) * hd'
+  · linear_combination (0 : K) * hd'
+  · linear_combination (0 : K) * hd'
+  · linear_combination hd'
 end ST.M3
 
 namespace ST.V3
